@@ -218,6 +218,22 @@ theorem finish_post {R : Rules} {G : Seq → Prop} {root0 root1 : List Item} {po
         · simp at h
       · simp at h
 
+theorem finish_trace_mem {R : Rules} {root : List Item} {pos : List Nat} {seq : Item}
+    {gaps : List Seq} {trace : List Ev} {res : Option Seq} {out : Out}
+    (h : finish R root pos seq gaps trace res = .ok out) : ∀ e ∈ trace, e ∈ out.trace := by
+  unfold finish at h
+  split at h
+  · simp at h
+  · split at h
+    · split at h
+      · simp only [Except.ok.injEq] at h; subst h; exact fun e he => List.mem_append_left _ he
+      · simp at h
+    · split at h
+      · split at h
+        · simp only [Except.ok.injEq] at h; subst h; exact fun e he => List.mem_append_left _ he
+        · simp at h
+      · simp at h
+
 theorem finish_gaps {R : Rules} {root : List Item} {pos : List Nat} {seq : Item}
     {gaps : List Seq} {trace : List Ev} {res : Option Seq} {out : Out}
     (h : finish R root pos seq gaps trace res = .ok out) : out.gaps = gaps := by
@@ -263,12 +279,12 @@ structure PostL (R : Rules) (G : Seq → Prop) (root : List Item) (pre : List Na
 theorem checkList_post {R : Rules} {G : Seq → Prop} (f : List Item → List Nat → Item → Except Err Out)
     (pre : List Nat)
     (hf : ∀ root pos seq out, f root pos seq = .ok out → getItem root pos = some seq →
-      VisGood R G root pos → (∀ g ∈ out.gaps, G g) → Post R G root pos out) :
+      VisGood R G root pos → (∀ e ∈ out.trace, e.computed = none → G e.th) → Post R G root pos out) :
     ∀ (items : List Item) (root : List Item) (j : Nat) (out : Out),
       checkList f pre root j items = .ok out →
       (∀ k, getItem root (pre ++ [j + k]) = items[k]?) →
       VisGood R G root (pre ++ [j]) →
-      (∀ g ∈ out.gaps, G g) →
+      (∀ e ∈ out.trace, e.computed = none → G e.th) →
       PostL R G root pre j out := by
   intro items
   induction items with
@@ -353,10 +369,10 @@ theorem setSub_th (root : List Item) (pos : List Nat) (sub : Option (List Item))
 /-- Main invariant: a successful check of the item at `pos` (whose citable surroundings are good)
 leaves everything off its path unchanged, makes every recorded statement good, and leaves a good
 statement at `pos`. -/
-theorem checkItem_post {R : Rules} {cfg : Cfg} {G : Seq → Prop} (hco : cfg.computeOnly = false) :
+theorem checkItem_post {R : Rules} {cfg : Cfg} {G : Seq → Prop} :
     ∀ (fuel : Nat) (root : List Item) (pos : List Nat) (seq : Item) (out : Out),
       checkItem R cfg fuel root pos seq = .ok out → getItem root pos = some seq →
-      VisGood R G root pos → (∀ g ∈ out.gaps, G g) → Post R G root pos out := by
+      VisGood R G root pos → (∀ e ∈ out.trace, e.computed = none → G e.th) → Post R G root pos out := by
   intro fuel
   induction fuel with
   | zero => intro root pos seq out h; simp [checkItem] at h
@@ -365,7 +381,7 @@ theorem checkItem_post {R : Rules} {cfg : Cfg} {G : Seq → Prop} (hco : cfg.com
     have hpos : pos ≠ [] := by
       intro e; subst e; simp [getItem] at hget
     have hselfroot : (getItem root pos).map (·.th) = some seq.th := by simp [hget]
-    simp only [checkItem, hco, Bool.false_and, Bool.false_eq_true, if_false] at h
+    simp only [checkItem] at h
     split at h
     · simp at h
     · rename_i hid
@@ -388,34 +404,29 @@ theorem checkItem_post {R : Rules} {cfg : Cfg} {G : Seq → Prop} (hco : cfg.com
             · simp at h
             · simp only [Except.ok.injEq] at h
               subst h
-              have hgt : Good R G t := Good.of_justified (.gap (hg t (by simp)))
+              have hgt : Good R G t := Good.of_justified (.gap (hg ⟨pos, seq.rule, none, t⟩ (by simp) rfl))
               refine post_same hget ?_ ?_
               · intro e he; simp at he; subst he; exact hgt
               · intro s hs; rw [ht] at hs; simp at hs; subst hs; exact hgt
         · split at h
-          · -- theorem
+          · -- compute_only: the stated sequent is taken on trust
             split at h
-            · simp at h
-            · simp at h
-            · rename_i r hr
-              exact finish_post h hselfroot (fun _ _ => rfl) (fun _ _ _ _ => rfl) (by simp)
-                (fun r' hr' => by simp at hr'; subst hr'; exact Good.of_justified (.thm hr))
-          · split at h
-            · -- variable
+            · rename_i hnone
+              simp only [Except.ok.injEq] at h; subst h
+              exact post_same hget (by simp) (fun s hs => by rw [hnone] at hs; simp at hs)
+            · rename_i t ht
               split at h
-              · simp at h
-              · rename_i r hr
-                exact finish_post h hselfroot (fun _ _ => rfl) (fun _ _ _ _ => rfl) (by simp)
-                  (fun r' hr' => by simp at hr'; subst hr'; exact Good.of_justified (.var hr))
-            · split at h
-              · -- subproof
-                split at h
+              · split at h
                 · simp at h
                 · rename_i s hs
                   split at h
                   · simp at h
                   · rename_i o ho
-                    have hgo : ∀ g ∈ o.gaps, G g := by rw [← finish_gaps h]; exact hg
+                    simp only [Except.ok.injEq] at h; subst h
+                    have hgt : Good R G t :=
+                      Good.of_justified (.gap (hg ⟨pos, seq.rule, none, t⟩ (by simp) rfl))
+                    have hgo : ∀ e ∈ o.trace, e.computed = none → G e.th :=
+                      fun e he => hg e (List.mem_append_left _ he)
                     have hH : ∀ k, getItem root (pos ++ [0 + k]) = s[k]? := by
                       intro k
                       rw [getItem_snoc _ _ hpos, hget]
@@ -427,84 +438,142 @@ theorem checkItem_post {R : Rules} {cfg : Cfg} {G : Seq → Prop} (hco : cfg.com
                       · omega
                     have PL := checkList_post (R := R) (G := G) (checkItem R cfg fuel) pos
                       (fun root pos seq out => ih root pos seq out) s root 0 o ho hH hv0 hgo
-                    refine finish_post h ?_ ?_ ?_ PL.trace ?_
-                    · rw [PL.above pos [] (by simp)]; exact hselfroot
+                    refine ⟨?_, ?_, ?_, ?_⟩
+                    · intro e he
+                      rcases List.mem_append.mp he with he | he
+                      · exact PL.trace e he
+                      · simp at he; subst he; exact hgt
                     · intro q hq
                       exact PL.frame q (fun m _ => hq.append_right [m])
+                    · intro it hit u hu
+                      have := PL.above pos [] (by simp)
+                      rw [hit, hselfroot] at this
+                      simp only [Option.map_some, Option.some.injEq] at this
+                      rw [this, ht] at hu
+                      simp at hu; subst hu; exact hgt
                     · intro q e hqe _
                       exact PL.above q e hqe
-                    · intro r hr
-                      exact lastTh_good hpos hr (fun m => PL.items m (Nat.zero_le m))
-              · -- rule application
+              · simp only [Except.ok.injEq] at h; subst h
+                have hgt : Good R G t :=
+                  Good.of_justified (.gap (hg ⟨pos, seq.rule, none, t⟩ (by simp) rfl))
+                refine post_same hget ?_ ?_
+                · intro e he; simp at he; subst he; exact hgt
+                · intro u hu; rw [ht] at hu; simp at hu; subst hu; exact hgt
+          · split at h
+            · -- theorem
+              split at h
+              · simp at h
+              · simp at h
+              · rename_i r hr
+                exact finish_post h hselfroot (fun _ _ => rfl) (fun _ _ _ _ => rfl) (by simp)
+                  (fun r' hr' => by simp at hr'; subst hr'; exact Good.of_justified (.thm hr))
+            · split at h
+              · -- variable
                 split at h
                 · simp at h
-                · rename_i pths hpths
+                · rename_i r hr
+                  exact finish_post h hselfroot (fun _ _ => rfl) (fun _ _ _ _ => rfl) (by simp)
+                    (fun r' hr' => by simp at hr'; subst hr'; exact Good.of_justified (.var hr))
+              · split at h
+                · -- subproof
                   split at h
                   · simp at h
-                  · rename_i prevThs hprev
-                    have hgoodp : ∀ p ∈ prevThs, Good R G p := by
-                      intro p hp
-                      rw [hid] at hpths
-                      exact resolvePrevs_good hv _ _ hpths p (allSome_mem _ _ hprev p hp)
-                    obtain ⟨qs, hqs, hw⟩ := good_list hgoodp
+                  · rename_i s hs
                     split at h
-                    · -- primitive
+                    · simp at h
+                    · rename_i o ho
+                      have hgo : ∀ e ∈ o.trace, e.computed = none → G e.th :=
+                        fun e he => hg e (finish_trace_mem h e he)
+                      have hH : ∀ k, getItem root (pos ++ [0 + k]) = s[k]? := by
+                        intro k
+                        rw [getItem_snoc _ _ hpos, hget]
+                        simp [hs]
+                      have hv0 : VisGood R G root (pos ++ [0]) := by
+                        intro q hq
+                        rcases (vis_snoc_iff pos 0 q).mp hq with hq' | ⟨b, hb, _⟩
+                        · exact hv q hq'
+                        · omega
+                      have PL := checkList_post (R := R) (G := G) (checkItem R cfg fuel) pos
+                        (fun root pos seq out => ih root pos seq out) s root 0 o ho hH hv0 hgo
+                      refine finish_post h ?_ ?_ ?_ PL.trace ?_
+                      · rw [PL.above pos [] (by simp)]; exact hselfroot
+                      · intro q hq
+                        exact PL.frame q (fun m _ => hq.append_right [m])
+                      · intro q e hqe _
+                        exact PL.above q e hqe
+                      · intro r hr
+                        exact lastTh_good hpos hr (fun m => PL.items m (Nat.zero_le m))
+                · -- rule application
+                  split at h
+                  · simp at h
+                  · rename_i pths hpths
+                    split at h
+                    · simp at h
+                    · rename_i prevThs hprev
+                      have hgoodp : ∀ p ∈ prevThs, Good R G p := by
+                        intro p hp
+                        rw [hid] at hpths
+                        exact resolvePrevs_good hv _ _ hpths p (allSome_mem _ _ hprev p hp)
+                      obtain ⟨qs, hqs, hw⟩ := good_list hgoodp
                       split at h
-                      · simp at h
-                      · split at h
-                        · simp at h
-                        · simp at h
-                        · simp at h
-                        · rename_i r hr
-                          exact finish_post h hselfroot (fun _ _ => rfl) (fun _ _ _ _ => rfl) (by simp)
-                            (fun r' hr' => by simp at hr'; subst hr'; exact Good.of_justified (.prim hqs hw hr))
-                    · -- macro
-                      rename_i level hkind
-                      by_cases hc : levelOk level cfg.checkLevel = true
-                      · rw [if_pos hc] at h
+                      · -- primitive
                         split at h
                         · simp at h
-                        · rename_i r hr
-                          exact finish_post h hselfroot (fun _ _ => rfl) (fun _ _ _ _ => rfl) (by simp)
-                            (fun r' hr' => by simp at hr'; subst hr'; exact Good.of_justified (.eval hqs hw hr))
-                      · rw [if_neg hc] at h
-                        split at h
-                        · simp at h
-                        · rename_i exp hexp
+                        · split at h
+                          · simp at h
+                          · simp at h
+                          · simp at h
+                          · rename_i r hr
+                            exact finish_post h hselfroot (fun _ _ => rfl) (fun _ _ _ _ => rfl) (by simp)
+                              (fun r' hr' => by simp at hr'; subst hr'; exact Good.of_justified (.prim hqs hw hr))
+                      · -- macro
+                        rename_i level hkind
+                        by_cases hc : levelOk level cfg.checkLevel = true
+                        · rw [if_pos hc] at h
                           split at h
                           · simp at h
-                          · rename_i o ho
-                            have hgo : ∀ g ∈ o.gaps, G g := by rw [← finish_gaps h]; exact hg
-                            have hget1 : getItem (setSub root pos (some exp)) pos
-                                = some { seq with sub := some exp } := by
-                              simp [setSub, getItem_modRoot_self, hget]
-                            have hH : ∀ k, getItem (setSub root pos (some exp)) (pos ++ [0 + k]) = exp[k]? := by
-                              intro k
-                              rw [getItem_snoc _ _ hpos, hget1]
-                              simp
-                            have hv0 : VisGood R G (setSub root pos (some exp)) (pos ++ [0]) := by
-                              intro q hq it hit
-                              rcases (vis_snoc_iff pos 0 q).mp hq with hq' | ⟨b, hb, _⟩
-                              · simp only [setSub, getItem_modRoot_diverge _ _ hq'.diverge] at hit
-                                exact hv q hq' it hit
-                              · omega
-                            have PL := checkList_post (R := R) (G := G) (checkItem R cfg fuel) pos
-                              (fun root pos seq out => ih root pos seq out) exp _ 0 o ho hH hv0 hgo
-                            refine finish_post h ?_ ?_ ?_ PL.trace ?_
-                            · rw [setSub_th, PL.above pos [] (by simp), setSub_th]; exact hselfroot
-                            · intro q hq
-                              simp only [setSub]
-                              rw [getItem_modRoot_diverge _ _ hq, PL.frame q (fun m _ => hq.append_right [m])]
-                              simp only [setSub]
-                              rw [getItem_modRoot_diverge _ _ hq]
-                            · intro q e hqe he
-                              subst hqe
-                              simp only [setSub]
-                              rw [getItem_modRoot_above_th _ _ _ _ he, PL.above q e rfl]
-                              simp only [setSub]
-                              rw [getItem_modRoot_above_th _ _ _ _ he]
-                            · intro r hr
-                              exact lastTh_good hpos hr (fun m => PL.items m (Nat.zero_le m))
-                    · simp at h
+                          · rename_i r hr
+                            exact finish_post h hselfroot (fun _ _ => rfl) (fun _ _ _ _ => rfl) (by simp)
+                              (fun r' hr' => by simp at hr'; subst hr'; exact Good.of_justified (.eval hqs hw hr))
+                        · rw [if_neg hc] at h
+                          split at h
+                          · simp at h
+                          · rename_i exp hexp
+                            split at h
+                            · simp at h
+                            · rename_i o ho
+                              have hgo : ∀ e ∈ o.trace, e.computed = none → G e.th :=
+                                fun e he => hg e (finish_trace_mem h e he)
+                              have hget1 : getItem (setSub root pos (some exp)) pos
+                                  = some { seq with sub := some exp } := by
+                                simp [setSub, getItem_modRoot_self, hget]
+                              have hH : ∀ k, getItem (setSub root pos (some exp)) (pos ++ [0 + k]) = exp[k]? := by
+                                intro k
+                                rw [getItem_snoc _ _ hpos, hget1]
+                                simp
+                              have hv0 : VisGood R G (setSub root pos (some exp)) (pos ++ [0]) := by
+                                intro q hq it hit
+                                rcases (vis_snoc_iff pos 0 q).mp hq with hq' | ⟨b, hb, _⟩
+                                · simp only [setSub, getItem_modRoot_diverge _ _ hq'.diverge] at hit
+                                  exact hv q hq' it hit
+                                · omega
+                              have PL := checkList_post (R := R) (G := G) (checkItem R cfg fuel) pos
+                                (fun root pos seq out => ih root pos seq out) exp _ 0 o ho hH hv0 hgo
+                              refine finish_post h ?_ ?_ ?_ PL.trace ?_
+                              · rw [setSub_th, PL.above pos [] (by simp), setSub_th]; exact hselfroot
+                              · intro q hq
+                                simp only [setSub]
+                                rw [getItem_modRoot_diverge _ _ hq, PL.frame q (fun m _ => hq.append_right [m])]
+                                simp only [setSub]
+                                rw [getItem_modRoot_diverge _ _ hq]
+                              · intro q e hqe he
+                                subst hqe
+                                simp only [setSub]
+                                rw [getItem_modRoot_above_th _ _ _ _ he, PL.above q e rfl]
+                                simp only [setSub]
+                                rw [getItem_modRoot_above_th _ _ _ _ he]
+                              · intro r hr
+                                exact lastTh_good hpos hr (fun m => PL.items m (Nat.zero_le m))
+                      · simp at h
 
 end Holpy.C02
